@@ -65,7 +65,7 @@ func verifSigOrLHS04(n *vNode) bool {
 	if n == nil {
 		return false
 	}
-	if n.kind == 'B' && n.op == vOpOr {
+	if n.kind == 'B' && n.op == vOpOr && verifConstLike04(n.l) {
 		if !n.con {
 			return true
 		}
@@ -76,6 +76,19 @@ func verifSigOrLHS04(n *vNode) bool {
 		}
 	}
 	return verifSigOrLHS04(n.l) || verifSigOrLHS04(n.r)
+}
+
+// the left side is built from vector(k) / numbers only ("always returns something")
+func verifConstLike04(n *vNode) bool {
+	switch n.kind {
+	case 'n', 'v':
+		return true
+	case 's':
+		return false
+	case 'B':
+		return verifConstLike04(n.l) && verifConstLike04(n.r)
+	}
+	return verifConstLike04(n.l)
 }
 
 func verifDefine04(tag string, v bool) bool {
